@@ -34,13 +34,14 @@ theorem source_pools_cleared :
 /-- rendering works on copies: the caller's map is only read, the cached DOM is deep-cloned before processing and evaluation -/
 theorem source_copies : Generated.callerDataCopied = true ∧ Generated.evaluatesDeepClone = true := by decide
 
-/-- THE PROCESS-WIDE MUTABLE STATE of the engine's packages (root, helpers, reflect, parser, formatter, markdown) is exactly: the three pools
-    (scope maps, interpolation buffers, nodes — `source_pools_cleared` and the pool theorem below), the path cache (its lock discipline is C09's
-    `source_lock_discipline`), and two tables written once at initialisation and only read afterwards (the indentation strings; the
-    fragment-context body node behind its `sync.Once`). Any other package-level cache, table or frame is shared by every engine and every
-    goroutine of the process: one render could reach another through it, so it needs a theorem of its own before this list may grow. -/
+/-- THE PROCESS-WIDE STATE THAT CHANGES AFTER INITIALISATION in the engine's packages (root, helpers, reflect, parser, formatter, markdown) is
+    exactly: the three pools (scope maps, interpolation buffers, nodes — `source_pools_cleared` and the pool theorem below), the path cache
+    (its lock discipline is C09's `source_lock_discipline`) and the fragment-context body node behind its `sync.Once`. Read-only tables
+    (lookup maps, compiled expressions, byte-slice constants, tables filled by `init`) are not state and are not listed. Any other
+    package-level variable that some function writes to — a cache, a memo table, a reused argument frame — is shared by every engine and
+    every goroutine of the process: one render could reach another through it, so it needs a theorem of its own before this list may grow. -/
 theorem source_process_wide_state : Generated.processWideState =
-    ["helpers.bodyNodeCache", "helpers.bodyNodeOnce", "helpers.nodePool", "vuego.bufferPool", "vuego.indentCache", "vuego.mapPool", "vuego.pathCache"] := by decide
+    ["helpers.bodyNodeCache", "helpers.bodyNodeOnce", "helpers.nodePool", "vuego.bufferPool", "vuego.mapPool", "vuego.pathCache"] := by decide
 
 /-! ## pools -/
 
